@@ -302,6 +302,12 @@ func (ms *Modules) process() []error {
 	for _, m := range ms.Modules {
 		mods = append(mods, m)
 	}
+	// include stops at the first missing module it meets and never
+	// revisits a module, so which errors are reported depends on the order
+	// of the walk: fix it.
+	sort.SliceStable(mods, func(i, j int) bool {
+		return mods[i].FullName() < mods[j].FullName()
+	})
 	for _, m := range mods {
 		if err := ms.include(m); err != nil {
 			errs = append(errs, err)
